@@ -5,15 +5,20 @@
    X.509 v3, not a CA, not self-signed, accepted signature algorithm (RSASSA-PSS: explicit, equal, accepted hashes),
    accepted curve / RSA modulus >= MIN_RSA_BITS, no unique IDs, digitalSignature without keyCertSign, an accepted EKU set,
    AKI present, no unhandled critical extension, valid at the signing time.
-   Excluded classes, each with a machine-checked witness below and a replayed input in corpus/C06.jsonl:
-     quiet_input      — exits that return Err without logging while QUIET_EXITS_LOGGED = false (F-PSS-DEFAULTS; EC parameters / RSA key / duplicated EKU
-                        that do not parse are the other, unconfirmed, members)
-     known_selfsigned — F-SELFSIGNED: the self-signed rule requires the CA flag (only while SELFSIGNED_ONLY_CA = true)
-     known_ku         — F-KU-CERTSIGN: a keyUsage without digitalSignature counts when keyCertSign or nonRepudiation is set *)
+
+   State after the fix wave: F-SELFSIGNED (fix e3a439b95: the self-signed test no longer asks for the CA flag, fact
+   SELFSIGNED_ONLY_CA = false) and F-PSS-DEFAULTS (fix 85312f708: a wrapper logs signingCredential.invalid for every Err
+   that logged nothing, fact QUIET_EXITS_LOGGED = true) are repaired; the theorems below no longer carry [quiet_input] or
+   [known_selfsigned].  Still excluded, with a machine-checked witness and a replayed input (corpus/C06.jsonl line 3):
+     known_ku — F-KU-CERTSIGN: a keyUsage without digitalSignature counts when keyCertSign or nonRepudiation is set. *)
 From Coq Require Import List NArith ZArith Bool.
 From C2PA Require Import Generated.C06_facts Model.CertProfile Model.TrustPolicy
      Proofs.CertProfileProofs Proofs.TrustPolicyProofs.
 Import ListNotations.
+
+(* the two repaired rules, as facts of the current source *)
+Theorem c06_repairs_in_place : SELFSIGNED_ONLY_CA = false /\ QUIET_EXITS_LOGGED = true.
+Proof. exact (conj selfsigned_fixed quiet_exits_logged). Qed.
 
 (* a conforming certificate is accepted and nothing is logged (signing time = time-stamp time if any, else now) *)
 Theorem c06_conforming_accepted :
@@ -21,37 +26,43 @@ Theorem c06_conforming_accepted :
     conforming c ekus (eff_time tst now) = true ->
     check_end_entity_certificate_profile c ekus tst now = POk
     /\ profile_log (check_end_entity_certificate_profile c ekus tst now) = [].
-Proof. exact conforming_accepted. Qed.
+Proof. exact conforming_accepted_all. Qed.
 
 (* each rule of the property's list, violated (alone or together with others), is rejected and exactly one
    signingCredential code is logged *)
 Theorem c06_each_violation_rejected :
   forall c ekus tst now,
-    quiet_input c = false -> known_selfsigned c = false -> known_ku c = false ->
+    known_ku c = false ->
     rule_version c \/ rule_ca c \/ rule_self_signed c \/ rule_sig_alg c \/ rule_key c \/ rule_unique_ids c
     \/ rule_key_usage c \/ rule_eku ekus c \/ rule_critical c \/ rule_validity c (eff_time tst now) ->
     exists b k, check_end_entity_certificate_profile c ekus tst now = PFail b /\ branch_code b = Some k
                 /\ profile_log (check_end_entity_certificate_profile c ekus tst now) = [k].
-Proof. exact each_violation_rejected. Qed.
+Proof. exact each_violation_rejected_all. Qed.
+
+(* every rule other than key usage: no hypothesis at all (self-signed and the formerly silent PSS exits included) *)
+Theorem c06_non_ku_violation_rejected :
+  forall c ekus tst now,
+    rule_version c \/ rule_ca c \/ rule_self_signed c \/ rule_sig_alg c \/ rule_key c \/ rule_unique_ids c
+    \/ rule_eku ekus c \/ rule_critical c \/ rule_validity c (eff_time tst now) ->
+    exists b k, check_end_entity_certificate_profile c ekus tst now = PFail b /\ branch_code b = Some k.
+Proof. exact non_ku_violation_rejected. Qed.
 
 (* the conjunction: accepted exactly when conforming *)
 Theorem c06_accepted_iff_conforming :
   forall c ekus tst now,
-    quiet_input c = false -> known_selfsigned c = false -> known_ku c = false ->
+    known_ku c = false ->
     (check_end_entity_certificate_profile c ekus tst now = POk <-> conforming c ekus (eff_time tst now) = true).
-Proof. exact profile_iff_conforming. Qed.
+Proof. exact profile_iff_conforming_all. Qed.
 
-(* without the known-class hypotheses: outside the quiet inputs the code accepts exactly [accepts] and every rejection
-   carries a code *)
+(* for every certificate the code accepts exactly [accepts] and every rejection carries a code *)
 Theorem c06_outcome_exact :
   forall c ekus tst now,
-    quiet_input c = false ->
     if accepts c ekus (eff_time tst now)
     then check_end_entity_certificate_profile c ekus tst now = POk
     else exists b k, check_end_entity_certificate_profile c ekus tst now = PFail b /\ branch_code b = Some k.
-Proof. exact profile_exact. Qed.
+Proof. exact profile_exact_all. Qed.
 
-(* version, validity and signature-algorithm OID are tested before anything that can exit quietly: unconditional *)
+(* version, validity and signature-algorithm OID: the exact code *)
 Theorem c06_early_rules :
   forall c ekus tst now,
     c_parse_ok c = true ->
@@ -75,29 +86,23 @@ Theorem c06_non_tolerated_failure_invalid :
     In k failure -> is_tolerated k = false -> validation_state success failure ingredients = StInvalid.
 Proof. exact non_tolerated_failure_invalid. Qed.
 
-(* the full rule list is refuted on the faithful model: witnesses of the three known classes *)
-Theorem c06_selfsigned_refuted :
-  SELFSIGNED_ONLY_CA = true ->
-  rule_self_signed self_signed_ee /\ c_is_ca self_signed_ee = false /\ quiet_input self_signed_ee = false
-  /\ check_end_entity_certificate_profile self_signed_ee DEFAULT_EKUS None T2026 = POk.
-Proof. exact selfsigned_refuted. Qed.
-
-Theorem c06_pss_defaults_refuted :
-  QUIET_EXITS_LOGGED = false ->
-  rule_sig_alg pss_defaults_ca /\ rule_ca pss_defaults_ca /\ rule_key pss_defaults_ca /\ rule_unique_ids pss_defaults_ca
+(* the former witnesses of F-SELFSIGNED and F-PSS-DEFAULTS (replayed as corpus lines 1 and 2) are now rejected *)
+Theorem c06_former_witnesses_rejected :
+  check_end_entity_certificate_profile self_signed_ee DEFAULT_EKUS None T2026 = PFail BSelfSigned
+  /\ profile_log (check_end_entity_certificate_profile self_signed_ee DEFAULT_EKUS None T2026) = [CInvalid]
   /\ check_end_entity_certificate_profile pss_defaults_ca DEFAULT_EKUS None T2026 = PFail BPssUnparsable
-  /\ profile_log (check_end_entity_certificate_profile pss_defaults_ca DEFAULT_EKUS None T2026) = [].
-Proof. exact pss_defaults_refuted. Qed.
+  /\ profile_log (check_end_entity_certificate_profile pss_defaults_ca DEFAULT_EKUS None T2026) = [CInvalid].
+Proof. exact former_witnesses_rejected. Qed.
 
+(* still open: the key-usage rule is refuted on the faithful model *)
 Theorem c06_ku_certsign_refuted :
   rule_key_usage certsign_only_ee /\ c_is_ca certsign_only_ee = false /\ known_selfsigned certsign_only_ee = false
   /\ quiet_input certsign_only_ee = false
   /\ check_end_entity_certificate_profile certsign_only_ee DEFAULT_EKUS None T2026 = POk.
 Proof. exact ku_certsign_refuted. Qed.
 
-(* the hypotheses are satisfiable: a conforming certificate exists, and the three excluded classes are empty on it *)
+(* the hypotheses are satisfiable: a conforming certificate exists, outside the remaining excluded class *)
 Example c06_nonvacuous :
-  conforming ok_cert DEFAULT_EKUS T2026 = true /\ quiet_input ok_cert = false
-  /\ known_selfsigned ok_cert = false /\ known_ku ok_cert = false
+  conforming ok_cert DEFAULT_EKUS T2026 = true /\ known_ku ok_cert = false
   /\ check_end_entity_certificate_profile ok_cert DEFAULT_EKUS None T2026 = POk.
 Proof. vm_compute. repeat split; reflexivity. Qed.
